@@ -249,8 +249,10 @@ pub fn cache_replay(args: &Args, s: &mut Summary) {
         n += 1;
         let ops = geta(&c, "ops");
         s.nontrivial_key(&c["ops"].to_string());
-        for tb in 0..3usize {
-        let mode = MODES[(n + tb) % 4];
+        // one concretisation per case in turn (the enumeration contains every operation sequence many times over
+        // up to renaming of pool entries), all three for the first cases
+        for tb in (if n <= 3000 { 0..3usize } else { (n % 3)..(n % 3 + 1) }) {
+        let mode = MODES[(n / 3 + tb) % 4];
         let pool = |i: i64| pool(tb, i);
         let len_choice = |l: i64| len_choice(tb, l);
         let label = format!("cache replay table {tb} {}", c["ops"]);
@@ -287,13 +289,21 @@ pub fn cache_replay(args: &Args, s: &mut Summary) {
                         sp.clear_curve();
                         false
                     }
+                    op @ ("clone_from" | "clone_from_cached") => {
+                        let mut source = SliderPath::new(mode, pool(i), len_choice(l));
+                        if op == "clone_from_cached" {
+                            let _ = source.curve();
+                        }
+                        sp.clone_from(&source);
+                        false
+                    }
                     other => panic!("op {other}"),
                 };
                 if bad {
                     return Some((k, o.clone()));
                 }
                 // the accessors must reflect the path's current inputs
-                if sp.control_points() != pool(geti(o, "i")).as_slice() && matches!(gets(o, "op"), "mut_points") {
+                if sp.control_points() != pool(geti(o, "i")).as_slice() && matches!(gets(o, "op"), "mut_points" | "clone_from" | "clone_from_cached") {
                     return Some((k, json!({"what": "control_points() after mutation"})));
                 }
             }
@@ -367,6 +377,18 @@ fn gen_cps(rng: &mut Rng) -> Vec<PathControlPoint> {
                 p.pos = Pos::new(if i % 2 == 0 { 0.0 } else { 40.0 + (i as f32) }, 30.0 * i as f32);
                 p.path_type = if i == 0 { Some(PathType::CATMULL) } else { None };
             }
+        }
+        // two vertices a hair apart after a long stretch (a segment far below f32 resolution of its distance)
+        4 if n >= 3 => {
+            let k = n - 1;
+            let d = *rng.pick(&[1e-5f32, 3e-5, 1e-4, 1e-6]);
+            v[0].pos = Pos::new(0.0, 0.0);
+            v[1].pos = Pos::new(*rng.pick(&[300.0f32, 5000.0, 70.0]), 0.0);
+            v[k].pos = Pos::new(v[k - 1].pos.x + d, v[k - 1].pos.y);
+            for p in v.iter_mut() {
+                p.path_type = None;
+            }
+            v[0].path_type = Some(PathType::LINEAR);
         }
         // a single typed arc or Catmull in the middle of straight pieces
         3 if n >= 6 => {
